@@ -65,12 +65,19 @@ PROPS["C14"] = {
     "variants": ["v1", "v2"],
     "lean": ["Gengo.Props.C14"],
     "level": "proof",
-    "level_text": "Kernel-checked theorems on the model of NameStrategy/Joiner/removePrefixAndSuffix/filterDirs and the plural namer; "
-                  "differential correspondence on shuffled call orders with shared sub-objects (exercising the identity-keyed cache) and an "
-                  "independent recomputation of the documented name shape.",
+    "level_text": "Kernel-checked theorems on the model of NameStrategy/Joiner/removePrefixAndSuffix/filterDirs and the plural namer: the name "
+                  "of a named type is Join(prefix, last k+1 of the non-ignored sanitised directories and the type name, suffix) and is a Go "
+                  "identifier for identifier type names and path elements that start with a letter (named_is_identifier); public names start "
+                  "upper-case, private lower-case; stripping inverts joining, so the name of every nested anonymous type carries prefix and "
+                  "suffix exactly once at the outside (mutual induction over type trees); the plural rules. The memo ns.Names is modelled "
+                  "(nameM: look up, else compute through the children's calls and store; panics propagate) and proved transparent: any "
+                  "sequence of Name calls on one strategy, from the empty memo, returns for every call the name the memo-free strategy gives "
+                  "- the same name on every call, independently of what was named before and in what order - and leaves a memo whose every "
+                  "entry is such a name (memo_transparent, naming_order_irrelevant). Differential correspondence on shuffled call orders with "
+                  "shared sub-objects and an independent recomputation of the documented name shape.",
     "level_note": "Trusted: Lean kernel, the model (validated by correspondence), ASCII restriction of strings.ToUpper/ToLower (the property "
-                  "quantifies over ASCII names). The identity-keyed cache is not part of the pure model; its transparency is established by the "
-                  "correspondence on shuffled call orders.",
+                  "quantifies over ASCII names). The code keys the memo by the type's identity, the model by its structure: more hits, each of "
+                  "them proved to be the memo-free name.",
     "rule": "random strategies (prefix, suffix incl. digit-only ones, public/private, ignore words, prepend count 0..3) x 1..4 types (named across "
             "9 package paths with '-' and '.' in directory names, builtins, and anonymous nestings up to depth 3 of map/slice/array/pointer/"
             "chan/struct/interface/func) named in a random call order with a shared sub-object in a third of the cases; plural over 34 words "
@@ -128,8 +135,11 @@ PROPS["C10"] = dict(PROPS["C04"], variants=["v1"], lean=["Gengo.Props.C10"],
     level_text="Kernel-checked on the executor model with an explicit disk: in verify-only mode the result is ok iff every file the run would "
                "write exists byte-identical, the error names exactly the files that are missing/different/unformattable, and directories and "
                "files are left exactly as they were for any list of targets. The real Context.Verify path is compared with the model on "
-               "generate-then-perturb histories and judged by an oracle that uses a real generate run as reference.",
-    rule="generate with the real code, then verify against the "
+               "generate-then-perturb histories and judged by an oracle that uses a real generate run as reference. How a tool asks for the mode "
+               "(args.GeneratorArgs: AddFlags over a value preset in code, Execute wiring VerifyOnly to Context.Verify) is exercised on the "
+               "real code in nine scenarios and judged by an oracle; it is not part of the model.",
+    rule="nine GeneratorArgs scenarios (flag registration over preset true/false with and without --verify-only[=false] on a fresh flag set; "
+    "Execute with VerifyOnly over intact, edited, truncated, missing output); then: generate with the real code, then verify against the "
     "on-disk copy after: no change, single-byte edits (first/middle/last position; thorough: every position of 20 files), truncation, extension, "
     "deletion, missing output directory, an extra unrelated file, two bad files at once.")
 
@@ -146,7 +156,8 @@ PROPS["C03"] = {
                   "the real namer and passed to the model).",
     "rule": "hand-built universes: 1..4 packages over 6 paths, 0..3 types/functions/variables/constants each over 6 names (so that several "
             "entries share a name), ordered under raw/public(0..2)/private(0..1) namers; each universe is ordered 24 times; a third also "
-            "through OrderTypes on a shuffled sub-list; thorough adds all universes with <= 4 entries over a 6-cell grid x 3 namers. "
+            "through OrderTypes on a shuffled sub-list; every other hand-built universe stores its packages with the Path field unset; thorough adds all universes with <= 4 entries over a 6-cell grid x 3 namers. "
+            "Executor component: runs of two or three targets over ONE Context (as ExecuteTargets does), each target and generator must be offered its types in the canonical order and Context.Order must be unchanged after every target. "
             "Non-trivial = at least two entries; distinct = distinct line.",
     "assumptions": ["names contain no NUL byte"],
 }
@@ -215,7 +226,9 @@ PROPS["C09"] = {
                   "imports.Process runs at the x/tools version pinned by /repo/go.mod's replace directive.",
     "rule": "files assembled from 1..3 generators' contributions: 0..3 imports each out of 11 spellings (bare, quoted, aliased, std/dotted/"
             "appengine groups, same path under two names), var/const blocks with header comments, function bodies; every contributed import "
-            "is used by the body (v1's import fixer would otherwise drop it). Non-trivial = at least 2 imports; distinct = distinct line.",
+            "is used by the body (v1's import fixer would otherwise drop it). Executor component: the real ExecutePackage/ExecuteTarget over generators "
+            "that contribute variable and constant lines (some containing '%'), which must be in the file verbatim and in generator order. "
+            "Non-trivial = at least 2 imports; distinct = distinct line.",
     "assumptions": ["contributions are valid Go (the property's premise)", "import strings contain no NUL"],
 }
 
@@ -378,7 +391,8 @@ PROPS["C05"] = {
             "methods; per declaration an optional block one blank line above, an optional doc block (// lines incl. empty ones and tag "
             "lines, /* */ one-line and multi-line), an optional trailing comment (also after an opening brace or parenthesis), adjacent or "
             "blank-separated declarations, file headers, dangling comments at the end of bodies and files; loaded by v1 (GOPATH mode AddDir) "
-            "and v2 (scratch module). Distinct = distinct line set.",
+            "and v2 (scratch module), a third of them first as a dependency and requested later, a third together with another requested "
+            "package that is scanned first and refers to every type of the package under test. Distinct = distinct line set.",
     "assumptions": ["sources are gofmt-formatted (the property's quantifier)", "nested anonymous structs are not generated (their members are shared between identically spelled types)"],
 }
 
